@@ -772,6 +772,14 @@ func (sfr *SegmentFileReader) ValidateAndReadBlock(blockNum uint16) error {
 			sfr.someBlksAbsent = true
 			log.Debugf("Skipped invalid block %d, error: %v", blockNum, err)
 			// This can happen if the column does not exist.
+			// Forget the block loaded before, otherwise ReadRecord would return the
+			// records of that other block for this one.
+			sfr.isBlockLoaded = false
+			sfr.encType = 0
+			sfr.currUncompressedBlockLen = 0
+			sfr.currOffset = 0
+			sfr.currRecLen = 0
+			sfr.currRecordNum = 0
 			return nil
 		}
 		if err != nil {
